@@ -62,4 +62,10 @@ CHECKS = {
         "text": "Every tree of the bound with every criteria assignment from a 7-element alphabet (including overlapping criteria and missing RestrictionCriteria), abstract flags, nested references, both document orders and both header namings is loaded; 16 packets steer into every branch, dead end and ambiguity; items, order, header/user_data views, partial data of unrecognized packets and skipping are compared with the reference walk.",
         "note": "Documents that decode the same parameter twice on one path are enumerated but not judged (unspecified).",
     },
+    "C01": {
+        "level": "exploration",
+        "technique": "bounded-exhaustive enumeration of documents (all ordered pairs / core triples of a 69-kind field palette x 3 container shapes) x packet patterns x short streams through load + packet_generator, against an independent reference interpreter",
+        "text": "The composition property: every ordered pair of field kinds (every encoding family, calibrator form, enum/bool, every string/binary length and delimiting form, time types) in three container shapes is rendered to XML, loaded, and fed pattern packets and every short stream over a 4-packet family; the generator's output is compared item by item (names, order, value, raw value, built-in kind, errors in place, skipping) with the reference.",
+        "note": "Interaction coverage is pairwise (triples for the core palette); data values are pattern families, not all bit patterns; fields running off the packet end are left to C14.",
+    },
 }
